@@ -32,7 +32,7 @@ Variants(m) ==
             \cup (IF m \in DetNames THEN {"acc", "hist", "sort", "T-6"} ELSE {})
             \cup (IF m \in DiagramNames THEN {"q-edges", "r-q-edges"} ELSE {})      \* -q also gives the bin edges / levels of several diagrams
 VariantTokens(v) ==
-  CASE v = "plain" -> <<>> [] v = "agg-median" -> <<"-agg", "median">> [] v = "agg-0.9" -> <<"-agg", "0.9">> [] v = "agg-count" -> <<"-agg", "count">>
+  CASE v = "plain" -> <<>> [] v = "three-files" -> <<>> [] v = "agg-median" -> <<"-agg", "median">> [] v = "agg-0.9" -> <<"-agg", "0.9">> [] v = "agg-count" -> <<"-agg", "count">>
     [] v = "b-within" -> <<"-b", "within", "-r", "1,2,3">> [] v = "b-below=" -> <<"-b", "below=", "-r", "1,2">>
     [] v = "b-=within" -> <<"-b", "=within", "-r", "1,2,3">> [] v = "b-=within=" -> <<"-b", "=within=", "-r", "1,2,3">>
     [] v = "b-above=" -> <<"-b", "above=", "-r", "1,2">>
